@@ -12,7 +12,7 @@ use crate::table::multi_writer::MultiWriter;
 use crate::version::{SuperVersions, Version};
 use crate::vlog::blob_file::scanner::ScanEntry;
 use crate::vlog::{BlobFileId, BlobFileMergeScanner, BlobFileWriter};
-use crate::{BlobFile, HashSet, InternalValue, Table};
+use crate::{BlobFile, HashMap, HashSet, InternalValue, Table};
 use std::iter::Peekable;
 use std::time::Instant;
 
@@ -135,7 +135,13 @@ pub(super) trait CompactionFlavour {
 /// Compaction worker that will relocate blobs that sit in blob files that are being rewritten
 pub struct RelocatingCompaction {
     inner: StandardCompaction,
-    blob_scanner: Peekable<BlobFileMergeScanner>,
+
+    /// One scanner per rewritten blob file
+    ///
+    /// The blobs of a single blob file are visited in the same order as the compaction stream
+    /// emits their vptrs; across blob files there is no such order, because the seqno stored
+    /// in a blob (e.g. 0 for ingested blobs) is not the seqno of its vptr.
+    blob_scanners: HashMap<BlobFileId, Peekable<BlobFileMergeScanner>>,
     blob_writer: BlobFileWriter,
     rewriting_blob_file_ids: HashSet<BlobFileId>,
     rewriting_blob_files: Vec<BlobFile>,
@@ -144,23 +150,19 @@ pub struct RelocatingCompaction {
 impl RelocatingCompaction {
     pub fn new(
         inner: StandardCompaction,
-        blob_scanner: Peekable<BlobFileMergeScanner>,
+        blob_scanners: HashMap<BlobFileId, Peekable<BlobFileMergeScanner>>,
         blob_writer: BlobFileWriter,
         rewriting_blob_files: Vec<BlobFile>,
     ) -> Self {
         Self {
             inner,
-            blob_scanner,
+            blob_scanners,
             blob_writer,
             rewriting_blob_file_ids: rewriting_blob_files.iter().map(BlobFile::id).collect(),
             rewriting_blob_files,
         }
     }
 
-    // TODO: vvv validate/unit test this vvv
-    fn drain_blobs(&mut self, key: &[u8], indirection: &BlobIndirection) -> crate::Result<()> {
-        drain_blobs(&mut self.blob_scanner, key, indirection)
-    }
 }
 
 impl CompactionFlavour for RelocatingCompaction {
@@ -182,11 +184,16 @@ impl CompactionFlavour for RelocatingCompaction {
                 .rewriting_blob_file_ids
                 .contains(&indirection.vhandle.blob_file_id)
             {
-                self.drain_blobs(&item.key.user_key, &indirection)?;
+                #[expect(clippy::expect_used, reason = "every rewritten blob file has a scanner")]
+                let blob_scanner = self
+                    .blob_scanners
+                    .get_mut(&indirection.vhandle.blob_file_id)
+                    .expect("rewritten blob file should have a scanner");
+
+                drain_blobs(blob_scanner, &item.key.user_key, &indirection)?;
 
                 #[expect(clippy::expect_used, reason = "vptr is expected to match with blob")]
-                let (blob_entry, blob_file_id) = self
-                    .blob_scanner
+                let (blob_entry, blob_file_id) = blob_scanner
                     .next()
                     .expect("vptr was not matched with blob (scanner is unexpectedly exhausted)")?;
 
